@@ -18,6 +18,10 @@ var goWitnessCases = map[string]Case{
 	"c02_goslice_define_accessor":   {Fam: "fn", Route: "call", Fn: "Object.assign", Recv: "undefined", Args: []string{"goSlice", "thrower"}},
 	"c02_ottocall_comment":          {Fam: "src", API: "Call", Bytes: []int{47, 47}},
 	"c02_duplicate_labels_4000":     {Fam: "src", API: "Compile", Open: []int{97, 58}, Bytes: []int{59}, Rep: 4000},
+	"c02_json_tojson_fresh":         {Fam: "rec", Form: "jsonToJSONFresh", D: 0, L: 50, Mode: "raw"},
+	"c02_throw_self_throwing":       {Fam: "thr", Entry: "Run", Val: "selfThrower"},
+	"c02_copy_arguments_param":      {Fam: "copy", Setup: "argumentsParam"},
+	"c02_copy_delete_eval":          {Fam: "copy", Setup: "deleteEval"},
 }
 
 func init() {
@@ -31,7 +35,7 @@ func init() {
 				return "", err
 			}
 			s := o.Kind
-			if s == "crash" || s == "wedged" || s == "killed" {
+			if s == "crash" || s == "wedged" || s == "killed" || s == "interrupted" {
 				return "no-return", nil // the process died (fatal error) or the call never came back
 			}
 			if o.Class != "" {
